@@ -85,3 +85,150 @@ pub fn render_grids(r: &Render) -> Vec<Grid> {
     v.extend(r.extra_channels().1.iter().map(grid_of));
     v
 }
+
+// ---------------------------------------------------------------------------
+// Incremental feeding and observation
+
+pub enum FeedEvent {
+    /// error returned by feed_bytes / try_init / finalize
+    Error(String),
+}
+
+/// Feeds `file` cut at `cuts`, following the documented contract (unconsumed
+/// bytes are re-offered in front of the next chunk).  `on_step(image, bytes_fed)`
+/// is called after every chunk once the image is initialised.
+pub fn feed_chunked(file: &[u8], cuts: &[usize], o: &DecodeOpts, mut on_step: impl FnMut(Option<&mut JxlImage>, usize) -> Result<(), String>) -> Result<Option<JxlImage>, String> {
+    let pool = if o.threads == 0 { JxlThreadPool::none() } else { JxlThreadPool::rayon(Some(o.threads)) };
+    let mut uninit = Some(JxlImage::builder().pool(pool).force_wide_buffers(o.force_wide).build_uninit());
+    let mut image: Option<JxlImage> = None;
+    let mut pending: Vec<u8> = vec![];
+    let pieces = jxlref::chunk::chunks(file, cuts);
+    let mut fed = 0;
+    for piece in pieces {
+        pending.extend_from_slice(piece);
+        fed += piece.len();
+        if let Some(img) = image.as_mut() {
+            let c = img.feed_bytes(&pending).map_err(|e| format!("feed_bytes: {e}"))?;
+            pending.drain(..c);
+        } else {
+            let mut u = uninit.take().unwrap();
+            let c = u.feed_bytes(&pending).map_err(|e| format!("feed_bytes(uninit): {e}"))?;
+            pending.drain(..c);
+            match u.try_init().map_err(|e| format!("try_init: {e}"))? {
+                jxl_oxide::InitializeResult::NeedMoreData(u) => uninit = Some(u),
+                jxl_oxide::InitializeResult::Initialized(img) => image = Some(img),
+            }
+        }
+        on_step(image.as_mut(), fed)?;
+    }
+    if let Some(img) = image.as_mut() {
+        img.finalize().map_err(|e| format!("finalize: {e}"))?;
+    }
+    Ok(image)
+}
+
+#[derive(PartialEq, Debug, Clone)]
+pub struct Observation {
+    pub header: String,
+    pub num_frames: usize,
+    pub num_keyframes: usize,
+    pub loading_done: bool,
+    pub frame_offsets: Vec<Option<usize>>,
+    pub frame_headers: Vec<String>,
+    pub exif: String,
+    pub xml: String,
+    pub jpeg_status: String,
+    pub original_icc: Option<Vec<u8>>,
+    /// per keyframe: per channel (w, h, sample bits)
+    pub renders: Vec<Result<Vec<(usize, usize, Vec<u32>)>, String>>,
+}
+
+pub fn grid_bits(g: &Grid) -> (usize, usize, Vec<u32>) {
+    match g {
+        Grid::I(v, w, h) => (*w, *h, v.iter().map(|&x| x as u32).collect()),
+        Grid::F(v, w, h) => (*w, *h, v.iter().map(|x| x.to_bits()).collect()),
+    }
+}
+
+pub fn observe(image: &JxlImage, render: bool) -> Observation {
+    let nf = image.num_loaded_frames();
+    let exif = match image.aux_boxes().first_exif() {
+        Ok(d) => match d {
+            jxl_oxide::AuxBoxData::Data(e) => format!("data off={} payload={:?}", e.tiff_header_offset(), e.payload()),
+            jxl_oxide::AuxBoxData::Decoding => "decoding".into(),
+            jxl_oxide::AuxBoxData::NotFound => "notfound".into(),
+        },
+        Err(e) => format!("err {e}"),
+    };
+    let xml = match image.aux_boxes().first_xml() {
+        jxl_oxide::AuxBoxData::Data(d) => format!("data {:?}", d),
+        jxl_oxide::AuxBoxData::Decoding => "decoding".into(),
+        jxl_oxide::AuxBoxData::NotFound => "notfound".into(),
+    };
+    let mut renders = vec![];
+    if render {
+        for k in 0..image.num_loaded_keyframes() {
+            renders.push(match image.render_frame(k) {
+                Ok(r) => Ok(render_grids(&r).iter().map(grid_bits).collect()),
+                Err(e) => Err(e.to_string()),
+            });
+        }
+    }
+    Observation {
+        header: format!("{:?}", image.image_header()),
+        num_frames: nf,
+        num_keyframes: image.num_loaded_keyframes(),
+        loading_done: image.is_loading_done(),
+        frame_offsets: (0..nf + 1).map(|i| image.frame_offset(i)).collect(),
+        frame_headers: (0..nf).map(|i| image.frame(i).map(|f| format!("{:?}", f.header())).unwrap_or_default()).collect(),
+        exif,
+        xml,
+        jpeg_status: format!("{:?}", image.jpeg_reconstruction_status()),
+        original_icc: image.original_icc().map(|x| x.to_vec()),
+        renders,
+    }
+}
+
+/// First differing field between two observations.
+pub fn diff_observation(a: &Observation, b: &Observation) -> Option<String> {
+    macro_rules! f {
+        ($n:ident) => {
+            if a.$n != b.$n {
+                return Some(format!("{}: {} | {}", stringify!($n), trunc(&format!("{:?}", a.$n)), trunc(&format!("{:?}", b.$n))));
+            }
+        };
+    }
+    f!(header);
+    f!(num_frames);
+    f!(num_keyframes);
+    f!(loading_done);
+    f!(frame_offsets);
+    f!(frame_headers);
+    f!(exif);
+    f!(xml);
+    f!(jpeg_status);
+    f!(original_icc);
+    if a.renders.len() != b.renders.len() {
+        return Some(format!("render count {} vs {}", a.renders.len(), b.renders.len()));
+    }
+    for (k, (x, y)) in a.renders.iter().zip(&b.renders).enumerate() {
+        match (x, y) {
+            (Ok(x), Ok(y)) => {
+                if x != y {
+                    return Some(format!("renders: keyframe {k} samples differ"));
+                }
+            }
+            (Err(_), Err(_)) => {}
+            (x, y) => return Some(format!("renders: keyframe {k}: {:?} vs {:?}", x.as_ref().map(|_| "ok"), y.as_ref().map(|_| "ok"))),
+        }
+    }
+    None
+}
+
+fn trunc(s: &str) -> String {
+    if s.len() > 300 {
+        format!("{}…", &s[..s.char_indices().take(300).last().map(|x| x.0).unwrap_or(0)])
+    } else {
+        s.to_string()
+    }
+}
